@@ -109,7 +109,11 @@ func (ts *TermStore) mk(t *Term) *Term {
 		}
 	}
 	switch t.op {
-	case OpMul, OpUDiv, OpURem, OpSDiv, OpSRem:
+	case OpMul:
+		if !t.a[0].IsConst() && !t.a[1].IsConst() {
+			t.hard = true
+		}
+	case OpUDiv, OpURem, OpSDiv, OpSRem:
 		t.hard = true
 	}
 	ts.all = append(ts.all, t)
@@ -485,6 +489,20 @@ func (ts *TermStore) Arith(op Op, x, y *Term) *Term {
 			if y.val == mask(w) {
 				return x
 			}
+			// a contiguous mask is an extract padded with zeros: keeps bit-twiddling structural
+			if w <= 64 {
+				m := y.val
+				lo := bits.TrailingZeros64(m)
+				run := bits.TrailingZeros64(^(m >> uint(lo)))
+				if lo+run <= w && (run == 64 || m>>uint(lo) == (uint64(1)<<uint(run))-1) {
+					mid := ts.Extract(x, lo+run-1, lo)
+					res := mid
+					if lo > 0 {
+						res = ts.Concat(res, ts.BV(lo, 0))
+					}
+					return ts.Zext(res, w)
+				}
+			}
 		}
 		if x == y {
 			return x
@@ -503,6 +521,23 @@ func (ts *TermStore) Arith(op Op, x, y *Term) *Term {
 		}
 		if x == y {
 			return x
+		}
+		// (h ++ 0_k) | zext(l), width(l) <= k  ==>  h ++ zext_k(l)
+		for i := 0; i < 2; i++ {
+			a, b := x, y
+			if i == 1 {
+				a, b = y, x
+			}
+			if a.op == OpConcat && a.a[1].IsConst() && a.a[1].val == 0 {
+				k := a.a[1].w
+				var l *Term
+				if b.op == OpZext && b.a[0].w <= k {
+					l = b.a[0]
+				}
+				if l != nil {
+					return ts.Concat(a.a[0], ts.Zext(l, k))
+				}
+			}
 		}
 	case OpBXor:
 		if x.IsConst() {
